@@ -119,3 +119,10 @@ kani_unit("crypto_rpjive", "winter-crypto", "crypto/src/hash/rescue/rp64_256_jiv
 for u_ in UNITS:
     if u_["unit"] == "crypto_rpjive":
         u_["trusted"] = [PERM]
+
+
+_MDS_FNS = ["fft::real_u64::{fft2_real, ifft2_real_unreduced, fft4_real, ifft4_real_unreduced}", "mds::block1", "mds::block2", "mds::block3",
+            "mds::mds_multiply_freq (exact integer product with the documented MDS matrix for 32-bit lanes)",
+            "mds::mds_multiply (every state: canonical result == MDS row times state mod M)"]
+verus_unit("mds8v", "mds8", ["C11"], ["mds_f64_8x8: " + f for f in _MDS_FNS], rlimit=200)
+verus_unit("mds12v", "mds12", ["C11"], ["mds_f64_12x12: " + f for f in _MDS_FNS], rlimit=200)
